@@ -18,6 +18,10 @@ func init() {
 	engine.RegisterSignature("c15-int-literal-beyond-2p53", sigIntLiteral)
 	engine.RegisterSignature("c15-export-same-kind-different-type", sigExportTypes)
 	engine.RegisterSignature("c15-call-undefined-this-native", sigCallUndefinedThis)
+	engine.RegisterSignature("c15-marshaljson-undefined-bytes", func(m *engine.Mismatch) bool {
+		// a function value (typeof x === "function"): MarshalJSON returns exactly the bytes "undefined"
+		return m.Aux["component"] == "MarshalJSON.valid" && m.Observed == "MarshalJSON.valid=neither: undefined"
+	})
 }
 
 var digitRun = regexp.MustCompile(`[0-9]+`)
